@@ -1,5 +1,6 @@
 import Nstd.Generated.HashLink
 import Nstd.Hash.LemmasLink
+import Nstd.Generated.HashConst
 /-
   Property C02, the tie by TRANSLATION: `Nstd.Generated.HashLink` holds the bodies of
       find(key)  insert(position, key[, value])  remove(iterator)  remove(key)  removeFront()  removeBack()  clear()
@@ -1008,6 +1009,102 @@ theorem gen_pool_append (h : Nat → Nat) (t : PTable) (k v : Nat) :
   unfold HashLink.PoolMap.append
   rw [gen_pool_insert h t _ k v (by simp)]
   cases t.insert Kind.pool h (.stl t.self) k v <;> rfl
+
+/-! ### constructors -/
+
+/-- The translated default constructor, run on the raw storage of an object (any member values; the translator checks that
+    every member is initialised), yields the model's fresh table with the capacity constant of the current header. -/
+theorem gen_map_constructDefault (h : Nat → Nat) (self : Bool) (c0 ipb dcap : Nat) :
+    HashLink.HashMap.constructDefault h (PTable.fresh self c0 ipb dcap) = some (PTable.fresh self Hash.defaultCapacityMap ipb dcap) := rfl
+
+/-- The translated `explicit HashMap(usize capacity)`: the model's `construct` (capacity 0 becomes 1), for every capacity. -/
+theorem gen_map_construct (h : Nat → Nat) (self : Bool) (c0 ipb dcap capacity : Nat) :
+    HashLink.HashMap.construct h (PTable.fresh self c0 ipb dcap) capacity = some (PTable.construct self ipb dcap capacity) := by
+  unfold HashLink.HashMap.construct PTable.construct PTable.fresh
+  by_cases hc : capacity = 0 <;> simp [hc]
+
+theorem gen_map_copyConstruct_loop (h : Nat → Nat) (o : PTable) (fuel : Nat) : ∀ (t : PTable) (i : Nxt),
+    HashLink.HashMap.copyConstruct_loop1 h fuel t o i (.stl o.self) = PTable.appendLoop Kind.map h o.self o.items fuel i t := by
+  induction fuel with
+  | zero =>
+    intro t i
+    cases i with
+    | stl s =>
+      unfold HashLink.HashMap.copyConstruct_loop1 PTable.appendLoop
+      by_cases hs : s = o.self <;> simp [hs]
+    | item a => simp [HashLink.HashMap.copyConstruct_loop1, PTable.appendLoop]
+  | succ f ih =>
+    intro t i
+    cases i with
+    | stl s =>
+      unfold HashLink.HashMap.copyConstruct_loop1 PTable.appendLoop
+      by_cases hs : s = o.self <;> simp [hs]
+    | item a =>
+      unfold HashLink.HashMap.copyConstruct_loop1 PTable.appendLoop
+      simp only [reduceCtorEq, if_false]
+      rw [gen_map_insert h t _ _ _ (by simp)]
+      cases t.insert Kind.map h (.stl t.self) (o.items a).key (o.items a).value with
+      | none => rfl
+      | some r => simp only [Option.map_some]; exact ih _ _
+
+/-- The translated copy constructor (member initialisers, then `append(i->key, i->value)` along `other`'s list) is the
+    model's `copyOf`, for every source table whose class constant is the one of the current header. -/
+theorem gen_map_copyConstruct (h : Nat → Nat) (self : Bool) (c0 : Nat) (o : PTable) (hd : o.dcap = Hash.defaultCapacityMap) :
+    HashLink.HashMap.copyConstruct h (PTable.fresh self c0 o.ipb o.dcap) o = PTable.copyOf Kind.map h self o := by
+  unfold HashLink.HashMap.copyConstruct PTable.copyOf PTable.appendAll
+  rw [hd]
+  exact gen_map_copyConstruct_loop h o _ _ _
+
+/-- The translated default constructor, run on the raw storage of an object (any member values; the translator checks that
+    every member is initialised), yields the model's fresh table with the capacity constant of the current header. -/
+theorem gen_set_constructDefault (h : Nat → Nat) (self : Bool) (c0 ipb dcap : Nat) :
+    HashLink.HashSet.constructDefault h (PTable.fresh self c0 ipb dcap) = some (PTable.fresh self Hash.defaultCapacitySet ipb dcap) := rfl
+
+/-- The translated `explicit HashSet(usize capacity)`: the model's `construct` (capacity 0 becomes 1), for every capacity. -/
+theorem gen_set_construct (h : Nat → Nat) (self : Bool) (c0 ipb dcap capacity : Nat) :
+    HashLink.HashSet.construct h (PTable.fresh self c0 ipb dcap) capacity = some (PTable.construct self ipb dcap capacity) := by
+  unfold HashLink.HashSet.construct PTable.construct PTable.fresh
+  by_cases hc : capacity = 0 <;> simp [hc]
+
+theorem gen_set_copyConstruct_loop (h : Nat → Nat) (o : PTable) (fuel : Nat) : ∀ (t : PTable) (i : Nxt),
+    HashLink.HashSet.copyConstruct_loop1 h fuel t o i (.stl o.self) = PTable.appendLoop Kind.set h o.self o.items fuel i t := by
+  induction fuel with
+  | zero =>
+    intro t i
+    cases i with
+    | stl s =>
+      unfold HashLink.HashSet.copyConstruct_loop1 PTable.appendLoop
+      by_cases hs : s = o.self <;> simp [hs]
+    | item a => simp [HashLink.HashSet.copyConstruct_loop1, PTable.appendLoop]
+  | succ f ih =>
+    intro t i
+    cases i with
+    | stl s =>
+      unfold HashLink.HashSet.copyConstruct_loop1 PTable.appendLoop
+      by_cases hs : s = o.self <;> simp [hs]
+    | item a =>
+      unfold HashLink.HashSet.copyConstruct_loop1 PTable.appendLoop
+      simp only [reduceCtorEq, if_false]
+      rw [gen_set_insert h t _ _ (o.items a).value (by simp)]
+      cases t.insert Kind.set h (.stl t.self) (o.items a).key (o.items a).value with
+      | none => rfl
+      | some r => simp only [Option.map_some]; exact ih _ _
+
+/-- The translated copy constructor (member initialisers, then `append(i->key, i->value)` along `other`'s list) is the
+    model's `copyOf`, for every source table whose class constant is the one of the current header. -/
+theorem gen_set_copyConstruct (h : Nat → Nat) (self : Bool) (c0 : Nat) (o : PTable) (hd : o.dcap = Hash.defaultCapacitySet) :
+    HashLink.HashSet.copyConstruct h (PTable.fresh self c0 o.ipb o.dcap) o = PTable.copyOf Kind.set h self o := by
+  unfold HashLink.HashSet.copyConstruct PTable.copyOf PTable.appendAll
+  rw [hd]
+  exact gen_set_copyConstruct_loop h o _ _ _
+
+theorem gen_pool_constructDefault (h : Nat → Nat) (self : Bool) (c0 ipb dcap : Nat) :
+    HashLink.PoolMap.constructDefault h (PTable.fresh self c0 ipb dcap) = some (PTable.fresh self Hash.defaultCapacityPool ipb dcap) := rfl
+
+theorem gen_pool_construct (h : Nat → Nat) (self : Bool) (c0 ipb dcap capacity : Nat) :
+    HashLink.PoolMap.construct h (PTable.fresh self c0 ipb dcap) capacity = some (PTable.construct self ipb dcap capacity) := by
+  unfold HashLink.PoolMap.construct PTable.construct PTable.fresh
+  by_cases hc : capacity = 0 <;> simp [hc]
 
 /-- the hypotheses of the `…_rel` theorems are met by a non-empty represented table, and the translated `remove(iterator)`
     does not fault on it -/
